@@ -35,6 +35,7 @@ type chunkQueue struct {
 	chunkSenders   map[uint32]p2p.ID          // the peer who sent the given chunk
 	chunkAllocated map[uint32]bool            // chunks that have been allocated via Allocate()
 	chunkReturned  map[uint32]bool            // chunks returned via Next()
+	discarded      map[p2p.ID]bool            // senders passed to DiscardSender(): Add() refuses their chunks
 	waiters        map[uint32][]chan<- uint32 // signals WaitFor() waiters about chunk arrival
 }
 
@@ -55,6 +56,7 @@ func newChunkQueue(snapshot *snapshot, tempDir string) (*chunkQueue, error) {
 		chunkSenders:   make(map[uint32]p2p.ID, snapshot.Chunks),
 		chunkAllocated: make(map[uint32]bool, snapshot.Chunks),
 		chunkReturned:  make(map[uint32]bool, snapshot.Chunks),
+		discarded:      make(map[p2p.ID]bool),
 		waiters:        make(map[uint32][]chan<- uint32),
 	}, nil
 }
@@ -79,6 +81,11 @@ func (q *chunkQueue) Add(chunk *chunk) (bool, error) {
 		return false, fmt.Errorf("received unexpected chunk %v", chunk.Index)
 	}
 	if q.chunkFiles[chunk.Index] != "" {
+		return false, nil
+	}
+	// A chunk of a sender whose chunks were discarded must not slip in behind the
+	// discard; checked under the queue lock, so that Next() can never hand it out.
+	if q.discarded[chunk.Sender] {
 		return false, nil
 	}
 
@@ -175,6 +182,7 @@ func (q *chunkQueue) DiscardSender(peerID p2p.ID) error {
 	q.Lock()
 	defer q.Unlock()
 
+	q.discarded[peerID] = true
 	for index, sender := range q.chunkSenders {
 		if sender == peerID && !q.chunkReturned[index] {
 			err := q.discard(index)
